@@ -131,6 +131,7 @@ def merge_states(cx, parent, states, base_len, base_pc, live=None):
             cur = h.frames.get(fk, [])
             ids = {(a.get_id(), b.get_id()) for (a, b, c) in cur}
             h.frames[fk] = cur + [x for x in fl if (x[0].get_id(), x[1].get_id()) not in ids]
+    h.opaque_any = any(s.heap.opaque_any for s in states)
     for s in states:
         h.touched |= s.heap.touched
         h.opaque |= s.heap.opaque
